@@ -15,9 +15,11 @@
 EXTENDS OrderBook, Json, SequencesExt
 CONSTANTS MaxLen,     \* events per behaviour
           Large       \* the "unbounded" depth
-VARIABLES init, poss, hist, done
+VARIABLES init, poss, hist, done,
+          nxt         \* simulation: the next event, drawn one step ahead (a state value is fully
+                      \* evaluated, so every use of the draw sees the same event)
 
-gvars == <<bids, asks, seq, last, init, poss, hist, done>>
+gvars == <<bids, asks, seq, last, init, poss, hist, done, nxt>>
 
 RatJ(b, r) == IF IsEmpty(b) THEN "none" ELSE RJ(r)
 Proj(b) == [bids |-> Levels(b.bids, "bids"), asks |-> Levels(b.asks, "asks"), seq |-> b.seq,
@@ -39,40 +41,52 @@ Record(e) == /\ poss' = After(poss, e)
 \* the OrderBook variables follow one of the possible books (they only feed Next's guards)
 Follow == \E b \in poss' : bids' = b.bids /\ asks' = b.asks /\ seq' = b.seq
 
+\* Random draws (HOWTO "TLC pitfalls"): RandomElement in a LET is re-drawn at every reference, so
+\* every draw is bound through a singleton set and the event built from the bound values is stored
+\* in the state variable nxt one step before it is used (a state value is fully evaluated).
+CleanOf(S, f, am) == [j \in 1..Cardinality(S) |-> Lv(SetToSeq(S)[f[j]], am[j])]
+
+DrawNext(forceSnap) ==
+  \E kind \in {RandomElement(1..8)}, s \in {RandomElement(SEQS)},
+     nb \in {RandomElement(0..MaxLong)}, na \in {RandomElement(0..MaxLong)},
+     Sb \in {RandomElement(SUBSET PRICE)}, Sa \in {RandomElement(SUBSET PRICE)} :
+    \E bl \in {[j \in 1..nb |-> RandomElement(LEVEL)]}, al \in {[j \in 1..na |-> RandomElement(LEVEL)]},
+       fb \in {RandomElement(Permutations(1..Cardinality(Sb)))}, fa \in {RandomElement(Permutations(1..Cardinality(Sa)))},
+       ab \in {[j \in 1..Cardinality(Sb) |-> RandomElement(AMOUNT \ {0})]},
+       aa \in {[j \in 1..Cardinality(Sa) |-> RandomElement(AMOUNT \ {0})]} :
+      nxt' = IF forceSnap \/ kind = 1 THEN Ev("Snapshot", CleanOf(Sb, fb, ab), CleanOf(Sa, fa, aa), s)
+                                      ELSE Ev("Update", bl, al, s)
+
 GInitT == /\ \E m \in Maps : bids = m /\ asks = m
-          /\ seq = 0 /\ last = NoEvent
+          /\ seq = 0 /\ last = NoEvent /\ nxt = NoEvent
           /\ init = Proj(Book) /\ poss = {Book} /\ hist = << >> /\ done = FALSE
 
 GInitR == /\ Init
           /\ init = Proj(Book) /\ poss = {Book} /\ hist = << >> /\ done = FALSE
+          /\ nxt = NoEvent                                  \* first step only draws
 
 GStepT == /\ ~done /\ Len(hist) < MaxLen
           /\ Next                               \* OrderBook's own actions choose the event
           /\ Record(last')
+          /\ UNCHANGED nxt
 
-RandList(n) == [j \in 1..n |-> RandomElement(LEVEL)]
-RandClean(side) ==                \* (a parameter, so that TLC does not cache the draw)
-             LET S  == RandomElement(SUBSET PRICE)
-                 n  == Cardinality(S)
-                 sq == SetToSeq(S)
-                 f  == RandomElement(Permutations(1..n))
-             IN [j \in 1..n |-> Lv(sq[f[j]], RandomElement(AMOUNT \ {0}))]
+GDraw0 == /\ ~done /\ nxt = NoEvent /\ hist = << >>
+          /\ DrawNext(FALSE)
+          /\ UNCHANGED <<bids, asks, seq, last, init, poss, hist, done>>
 
-GStepR == /\ ~done /\ Len(hist) < MaxLen
-          /\ LET snap == Cardinality(poss) > 4 \/ RandomElement(1..8) = 1
-                 e == IF snap THEN Ev("Snapshot", RandClean("bids"), RandClean("asks"), RandomElement(SEQS))
-                      ELSE Ev("Update", RandList(RandomElement(0..MaxLong)), RandList(RandomElement(0..MaxLong)),
-                              RandomElement(SEQS))
-             IN /\ Record(e)
-                /\ last' = e
-                /\ LET b == CHOOSE x \in After(poss, e) : TRUE IN bids' = b.bids /\ asks' = b.asks /\ seq' = b.seq
+GStepR == /\ ~done /\ Len(hist) < MaxLen /\ nxt # NoEvent
+          /\ (nxt.k = "Snapshot" => CleanList(nxt.b) /\ CleanList(nxt.a))
+          /\ Record(nxt)
+          /\ last' = nxt
+          /\ \E b \in {CHOOSE x \in After(poss, nxt) : TRUE} : bids' = b.bids /\ asks' = b.asks /\ seq' = b.seq
+          /\ DrawNext(Cardinality(After(poss, nxt)) > 4)            \* too many possible books: resync
 
 GFinish == /\ ~done /\ Len(hist) = MaxLen
            /\ done' = TRUE
-           /\ UNCHANGED <<bids, asks, seq, last, init, poss, hist>>
+           /\ UNCHANGED <<bids, asks, seq, last, init, poss, hist, nxt>>
 
 GSpecT == GInitT /\ [][GStepT \/ GFinish]_gvars
-GSpecR == GInitR /\ [][GStepR \/ GFinish]_gvars
+GSpecR == GInitR /\ [][GDraw0 \/ GStepR \/ GFinish]_gvars
 
 Emit == done => PrintT(<<"SCN", ToJson([init |-> init, steps |-> hist])>>)
 =============================================================================
